@@ -1211,9 +1211,14 @@ fn counted<I: Iterator<Item = String>>(prefix: &str, items: I) -> String {
     s
 }
 
-fn param_text(p: &ServiceParameter) -> String {
+fn param_text(p: &ServiceParameter, abs: bool) -> String {
     match p {
         ServiceParameter::MANDATORY { key_ids } => {
+            // the abstraction used by `rt.dns` treats `mandatory` as a set (sorted list)
+            let mut key_ids = key_ids.clone();
+            if abs {
+                key_ids.sort_unstable();
+            }
             counted("mandatory", key_ids.iter().map(|k| k.to_string()))
         }
         ServiceParameter::ALPN { alpn_ids } => {
@@ -1515,13 +1520,13 @@ impl Canon {
                 RR::SVCB(r) => {
                     w.n("priority", r.priority as u64);
                     w.d("target_name", &r.target_name);
-                    w.l("parameters", r.parameters.iter().map(param_text).collect());
+                    w.l("parameters", r.parameters.iter().map(|p| param_text(p, self.lower)).collect());
                     (Type::SVCB as u16, Some(&r.name), Some(r.ttl), Some(IN))
                 }
                 RR::HTTPS(r) => {
                     w.n("priority", r.priority as u64);
                     w.d("target_name", &r.target_name);
-                    w.l("parameters", r.parameters.iter().map(param_text).collect());
+                    w.l("parameters", r.parameters.iter().map(|p| param_text(p, self.lower)).collect());
                     (Type::HTTPS as u16, Some(&r.name), Some(r.ttl), Some(IN))
                 }
                 RR::NID(r) => {
